@@ -3,6 +3,7 @@ package props
 import (
 	"context"
 	"errors"
+	"sync"
 	"testing"
 	"time"
 
@@ -25,6 +26,9 @@ type c01bStep struct {
 	Table string   `json:"table"`
 	Op    *opSpec  `json:"op,omitempty"`
 	Batch []opSpec `json:"batch,omitempty"`
+	// Concurrent: single-row operations issued by as many goroutines at the same instant
+	// (regions first touched concurrently, in whatever order the scheduler gives)
+	Concurrent []opSpec `json:"concurrent,omitempty"`
 }
 
 type c01bCase struct {
@@ -52,6 +56,7 @@ func c01bRun(c c01bCase) Outcome {
 }
 
 func c01bRunInBubble(c c01bCase) (out Outcome) {
+	resetRetained()
 	var addrs []string
 	for i := 0; i < c.NServers; i++ {
 		addrs = append(addrs, serverAddr(i))
@@ -80,6 +85,7 @@ func c01bRunInBubble(c c01bCase) (out Outcome) {
 	unknownLookups := 0
 	boundaryKeys := 0
 	multiRegion := false
+	concurrentSteps := 0
 	for _, tb := range c.Tables {
 		if len(tb.Bounds) > 0 {
 			multiRegion = true
@@ -89,6 +95,9 @@ func c01bRunInBubble(c c01bCase) (out Outcome) {
 		ops := st.Batch
 		if st.Op != nil {
 			ops = []opSpec{*st.Op}
+		}
+		if len(st.Concurrent) > 0 {
+			ops = st.Concurrent
 		}
 		newRegions := map[string]bool{}
 		for _, op := range ops {
@@ -118,6 +127,36 @@ func c01bRunInBubble(c c01bCase) (out Outcome) {
 				return viol("request-failed", "step %d: %s row %q on %q: %v", si, st.Op.Kind, st.Op.Key, st.Table, err)
 			} else if cerr != nil {
 				return viol("foreign-response", "step %d: %v", si, cerr)
+			}
+		} else if len(st.Concurrent) > 0 {
+			concurrentSteps++
+			errs := make([]error, len(st.Concurrent))
+			cerrs := make([]error, len(st.Concurrent))
+			var wg sync.WaitGroup
+			start := make(chan struct{})
+			for i, op := range st.Concurrent {
+				wg.Add(1)
+				go func(i int, op opSpec) {
+					defer wg.Done()
+					<-start
+					errs[i], cerrs[i] = doOp(client, ctx, st.Table, op)
+				}(i, op)
+			}
+			close(start)
+			wg.Wait()
+			for i, op := range st.Concurrent {
+				if !exists[st.Table] {
+					if !errors.Is(errs[i], gohbase.TableNotFound) {
+						return viol("unknown-table", "step %d: concurrent %s on missing table %q returned %v", si, op.Kind, st.Table, errs[i])
+					}
+					continue
+				}
+				if errs[i] != nil {
+					return viol("request-failed", "step %d: concurrent %s row %q on %q: %v", si, op.Kind, op.Key, st.Table, errs[i])
+				}
+				if cerrs[i] != nil {
+					return viol("foreign-response", "step %d: %v", si, cerrs[i])
+				}
 			}
 		} else {
 			var calls []hrpc.Call
@@ -150,13 +189,16 @@ func c01bRunInBubble(c c01bCase) (out Outcome) {
 		if exists[st.Table] {
 			// static layout, sequential steps: exactly one meta lookup per region first touched,
 			// none for keys inside known regions
-			if got, want := meta1-meta0, len(newRegions); got != want {
+			if got, want := meta1-meta0, len(newRegions); got != want && len(st.Concurrent) == 0 {
 				return viol("meta-lookups", "step %d on %q: %d meta lookup(s), but %d region(s) were touched for the first time (keys inside known regions must come from the cache, others from hbase:meta)", si, st.Table, got, want)
 			}
 		}
 		for n := range newRegions {
 			touched[n] = true
 		}
+	}
+	if n, err := recheckRetained(); err != nil {
+		return viol("result-changed-later", "%v (%d results retained; snappy=%v)", err, n, c.Snappy)
 	}
 	execs, _, problems := cl.Snapshot()
 	if len(problems) > 0 {
@@ -178,6 +220,9 @@ func c01bRunInBubble(c c01bCase) (out Outcome) {
 	out.NonTrivial = (multiRegion || len(c.Tables) > 1) && boundaryKeys > 0
 	if unknownLookups > 0 {
 		out.Labels = append(out.Labels, "unknown_table_lookup")
+	}
+	if concurrentSteps > 0 {
+		out.Labels = append(out.Labels, "concurrent_first_touches")
 	}
 	if multiRegion {
 		out.Labels = append(out.Labels, "multi_region")
@@ -237,7 +282,12 @@ func c01bGen(t *rapid.T) c01bCase {
 				st.Table = rapid.SampledFrom(unusedNames).Draw(t, "unknowntable")
 			}
 		}
-		if rapid.IntRange(0, 3).Draw(t, "batch") == 0 {
+		if rapid.IntRange(0, 4).Draw(t, "conc") == 0 {
+			nb := rapid.IntRange(2, 8).Draw(t, "nconc")
+			for k := 0; k < nb; k++ {
+				st.Concurrent = append(st.Concurrent, genOp(t, l, kinds, &n))
+			}
+		} else if rapid.IntRange(0, 3).Draw(t, "batch") == 0 {
 			nb := rapid.IntRange(1, 8).Draw(t, "nb")
 			for k := 0; k < nb; k++ {
 				st.Batch = append(st.Batch, genOp(t, l, []string{"get", "put", "del", "app", "inc"}, &n))
@@ -256,7 +306,7 @@ func TestC01_EndToEnd(t *testing.T) {
 	rec := evid.New("C01", "TestC01_EndToEnd",
 		"rapid, virtual time: 1..4 prefix-related tables (t, t-, t., t0, tt, ns:t, ns:t-, s) with 1..6 regions each on "+
 			"1..4 simulated servers and a sequence of 1..40 operations (get, put, delete, append, increment, "+
-			"check-and-put, SendBatch of 1..8) on keys constructed around the region boundaries, plus operations on a "+
+			"check-and-put, SendBatch of 1..8, or 2..8 single operations issued concurrently; table names passed as slices with spare capacity shared by all calls) on keys constructed around the region boundaries, plus operations on a "+
 			"neighbouring table name that does not exist; queue size / flush interval / snappy drawn; the cache starts "+
 			"cold and warms up as regions are touched. Oracle at the servers: every request frame and every action of "+
 			"every multi-request names the region that owns its row and arrives at the server hosting it (a static "+
